@@ -525,10 +525,13 @@ func (s *State) diffIOSACLs(al, bl []*cmd, diff []edit.Range) {
 			moveOK := true
 			for i, b := range run {
 				moveOK = moveOK && action0 == getIOSAction(b)
-				p := s.printNetspocCmd(b)
-				p = stripLogRX.ReplaceAllLiteralString(p, "")
+				pr := s.printNetspocCmd(b)
+				p := stripLogRX.ReplaceAllLiteralString(pr, "")
 				if cmdPos, found := delMap[p]; found {
-					moveACL(cmdPos, b, r.LowA, i, moveOK, i >= tail)
+					// Line must be replaced even inside its block,
+					// if attribute 'log' has changed.
+					same := pr == getPrintableCmd(cmdPos.cmd, s.a)
+					moveACL(cmdPos, b, r.LowA, i, moveOK && same, i >= tail && same)
 					// Line on device can be moved only once.
 					delete(delMap, p)
 				} else {
